@@ -95,6 +95,9 @@ struct Cfg {
     /// requester whose load is dropped when the "cancel" gate opens while it is in flight
     cancel: Option<usize>,
     part: Part,
+    /// one more concurrent request on the SAME DataLoader with keys of another type (`u8`): the loader keeps its
+    /// pending requests, timer state and cache per key type, and neither side may disturb the other
+    other: Option<Vec<u8>>,
 }
 
 /// How the schedules of a configuration are enumerated.
@@ -118,14 +121,14 @@ impl Part {
 
 impl Cfg {
     fn to_json(&self) -> serde_json::Value {
-        json!({"requests": self.reqs, "max_batch_size": self.max_batch, "cache": self.cache.name(), "prefeed": self.prefeed, "loader": self.mode.name(), "cancel": self.cancel, "part": self.part.name()})
+        json!({"requests": self.reqs, "max_batch_size": self.max_batch, "cache": self.cache.name(), "prefeed": self.prefeed, "loader": self.mode.name(), "cancel": self.cancel, "part": self.part.name(), "other_key_type_request": self.other})
     }
     fn from_json(v: &serde_json::Value) -> Option<Cfg> {
         let reqs = v["requests"].as_array()?.iter().map(|r| r.as_array().map(|a| a.iter().filter_map(|x| x.as_i64().map(|x| x as i32)).collect())).collect::<Option<Vec<Vec<i32>>>>()?;
         let cache = [CacheK::No, CacheK::Map, CacheK::Lru2].into_iter().find(|c| Some(c.name()) == v["cache"].as_str())?;
         let mode = [Mode::Ok, Mode::Partial, Mode::ErrAll, Mode::ErrFirst].into_iter().find(|c| Some(c.name()) == v["loader"].as_str())?;
         let part = [Part::Full, Part::Orders].into_iter().find(|c| Some(c.name()) == v["part"].as_str())?;
-        Some(Cfg { reqs, max_batch: v["max_batch_size"].as_u64()? as usize, cache, prefeed: v["prefeed"].as_bool()?, mode, cancel: v["cancel"].as_u64().map(|x| x as usize), part })
+        Some(Cfg { reqs, max_batch: v["max_batch_size"].as_u64()? as usize, cache, prefeed: v["prefeed"].as_bool()?, mode, cancel: v["cancel"].as_u64().map(|x| x as usize), part, other: v["other_key_type_request"].as_array().map(|a| a.iter().filter_map(|x| x.as_u64().map(|x| x as u8)).collect()) })
     }
     fn largest(&self) -> usize {
         self.reqs.iter().map(|r| r.len()).max().unwrap_or(0)
@@ -184,7 +187,7 @@ fn product(out: &mut Vec<Cfg>, part: Part, fams: &[Vec<Vec<i32>>], batches: &[us
                         }
                     }
                     for cancel in cancels {
-                        out.push(Cfg { reqs: reqs.clone(), max_batch, cache, prefeed, mode, cancel, part });
+                        out.push(Cfg { reqs: reqs.clone(), max_batch, cache, prefeed, mode, cancel, part, other: None });
                     }
                 }
             }
@@ -232,6 +235,15 @@ fn configurations(quick: bool) -> Vec<Cfg> {
     // (quick: families with at most 4 keys in total)
     product(&mut out, Part::Orders, &two, &[1, 2, 3], &CACHES, &MODES, true);
     product(&mut out, Part::Orders, if quick { &three_small } else { &three }, &[1, 2, 3], &CACHES, &MODES, true);
+    // a request with keys of a second type next to the i32 requests: every 2-request event-orders configuration
+    // without cancellation (thorough: with it too), and a sub-product with the full schedule space
+    let mut extra = Vec::new();
+    product(&mut extra, Part::Orders, &two, &[1, 2, 3], &CACHES, &MODES, !quick);
+    product(&mut extra, Part::Full, &[vec![vec![0], vec![0, 1]]], if quick { &[2] } else { &[1, 2] }, if quick { &[(CacheK::No, false)] } else { &[(CacheK::No, false), (CacheK::Map, false)] }, &[Mode::Ok, Mode::ErrFirst], false);
+    for mut c in extra {
+        c.other = Some(vec![0, 1]);
+        out.push(c);
+    }
     out
 }
 
@@ -262,9 +274,26 @@ struct LoadRec {
     result: Option<LoadEnd>,
 }
 
+/// batch / load of the second key type (`u8` keys, values 200 + k, never fails)
+#[derive(Clone, Debug)]
+struct Batch8 {
+    keys: Vec<u8>,
+    call: u64,
+    done: Option<u64>,
+}
+#[derive(Clone, Debug)]
+struct Load8 {
+    keys: Vec<u8>,
+    start: Option<u64>,
+    end: Option<u64>,
+    result: Option<Result<BTreeMap<u8, i32>, i32>>,
+}
+
 struct Rec {
     clock: u64,
     batches: Vec<Batch>,
+    batches8: Vec<Batch8>,
+    load8: Option<Load8>,
     loads: Vec<LoadRec>,
     remaining: usize,
     root_waker: Option<Waker>,
@@ -324,6 +353,47 @@ impl Loader<i32> for L {
         } else {
             g.batches[id].ret = Some(Ok(pairs.iter().cloned().collect()));
             Ok(ordered_map(&pairs))
+        }
+    }
+}
+
+impl Loader<u8> for L {
+    type Value = i32;
+    type Error = i32;
+    async fn load(&self, keys: &[u8]) -> Result<HashMap<u8, i32>, i32> {
+        let id = {
+            let mut g = self.sh.lock().unwrap();
+            let call = g.tick();
+            g.batches8.push(Batch8 { keys: keys.to_vec(), call, done: None });
+            g.batches8.len() - 1
+        };
+        self.h.gate("load8").await;
+        let mut g = self.sh.lock().unwrap();
+        let t = g.tick();
+        g.batches8[id].done = Some(t);
+        Ok(keys.iter().map(|k| (*k, 200 + *k as i32)).collect())
+    }
+}
+
+async fn requester8<C: CacheFactory>(dl: Arc<DataLoader<L, C>>, keys: Vec<u8>, arrive: bool, sh: Shared, h: Handle) {
+    if arrive {
+        h.gate("arrive8").await;
+    }
+    {
+        let mut g = sh.lock().unwrap();
+        let t = g.tick();
+        g.load8.as_mut().unwrap().start = Some(t);
+    }
+    let r = dl.load_many(keys).await.map(|m| m.into_iter().collect::<BTreeMap<u8, i32>>());
+    let mut g = sh.lock().unwrap();
+    let t = g.tick();
+    let l = g.load8.as_mut().unwrap();
+    l.end = Some(t);
+    l.result = Some(r);
+    g.remaining -= 1;
+    if g.remaining == 0 {
+        if let Some(w) = g.root_waker.take() {
+            w.wake();
         }
     }
 }
@@ -403,6 +473,8 @@ struct Exec {
     unfinished: Vec<String>,
     batches: Vec<Batch>,
     loads: Vec<LoadRec>,
+    batches8: Vec<Batch8>,
+    load8: Option<Load8>,
 }
 
 fn exec_with<C: CacheFactory>(cfg: &Cfg, factory: C, ch: &mut Chooser, preempt: Class) -> Exec {
@@ -410,8 +482,10 @@ fn exec_with<C: CacheFactory>(cfg: &Cfg, factory: C, ch: &mut Chooser, preempt: 
     let sh: Shared = Arc::new(Mutex::new(Rec {
         clock: 0,
         batches: Vec::new(),
+        batches8: Vec::new(),
+        load8: cfg.other.as_ref().map(|k| Load8 { keys: k.clone(), start: None, end: None, result: None }),
         loads: cfg.reqs.iter().map(|k| LoadRec { keys: k.clone(), start: None, end: None, result: None }).collect(),
-        remaining: cfg.reqs.len(),
+        remaining: cfg.reqs.len() + cfg.other.is_some() as usize,
         root_waker: None,
     }));
     let rc = RunCfg { policy: if cfg.part == Part::Full { Policy::Full } else { Policy::Eager }, gate_class: Class::Exhaustive, preempt_class: preempt, max_steps: 5_000 };
@@ -426,6 +500,9 @@ fn exec_with<C: CacheFactory>(cfg: &Cfg, factory: C, ch: &mut Chooser, preempt: 
             }
             for (i, keys) in cfg.reqs.iter().enumerate() {
                 h2.spawn(format!("req{i}"), requester(i, dl.clone(), keys.clone(), cfg.cancel == Some(i), cfg.part == Part::Orders, sh2.clone(), h2.clone()));
+            }
+            if let Some(k8) = &cfg.other {
+                h2.spawn("req8".to_string(), requester8(dl.clone(), k8.clone(), cfg.part == Part::Orders, sh2.clone(), h2.clone()));
             }
             std::future::poll_fn(|cx| {
                 let mut g = sh2.lock().unwrap();
@@ -443,8 +520,8 @@ fn exec_with<C: CacheFactory>(cfg: &Cfg, factory: C, ch: &mut Chooser, preempt: 
     });
     let g = sh.lock().unwrap();
     match r {
-        Ok((end, schedule, steps, pending_gates, unfinished)) => Exec { end, panic: None, schedule, steps, pending_gates, unfinished, batches: g.batches.clone(), loads: g.loads.clone() },
-        Err(p) => Exec { end: End::Horizon, panic: Some(p), schedule: moves_log.lock().unwrap().clone(), steps: 0, pending_gates: Vec::new(), unfinished: Vec::new(), batches: g.batches.clone(), loads: g.loads.clone() },
+        Ok((end, schedule, steps, pending_gates, unfinished)) => Exec { end, panic: None, schedule, steps, pending_gates, unfinished, batches: g.batches.clone(), loads: g.loads.clone(), batches8: g.batches8.clone(), load8: g.load8.clone() },
+        Err(p) => Exec { end: End::Horizon, panic: Some(p), schedule: moves_log.lock().unwrap().clone(), steps: 0, pending_gates: Vec::new(), unfinished: Vec::new(), batches: g.batches.clone(), loads: g.loads.clone(), batches8: g.batches8.clone(), load8: g.load8.clone() },
     }
 }
 
@@ -461,7 +538,8 @@ fn exec(cfg: &Cfg, ch: &mut Chooser, preempt: Class) -> Exec {
 
 /// Canonical observation of one execution (batch key *order* is not part of it: it comes from
 /// std HashSet iteration inside the loader).
-fn observation(x: &Exec) -> (String, Vec<(Vec<i32>, Option<Result<BTreeMap<i32, i32>, i32>>)>, Vec<Option<LoadEnd>>, Option<String>) {
+#[allow(clippy::type_complexity)]
+fn observation(x: &Exec) -> (String, Vec<(Vec<i32>, Option<Result<BTreeMap<i32, i32>, i32>>)>, Vec<Option<LoadEnd>>, Option<String>, Vec<Vec<u8>>, Option<Result<BTreeMap<u8, i32>, i32>>) {
     let batches = x
         .batches
         .iter()
@@ -471,7 +549,16 @@ fn observation(x: &Exec) -> (String, Vec<(Vec<i32>, Option<Result<BTreeMap<i32, 
             (k, b.ret.clone())
         })
         .collect();
-    (format!("{:?}", x.end), batches, x.loads.iter().map(|l| l.result.clone()).collect(), x.panic.clone())
+    let b8 = x
+        .batches8
+        .iter()
+        .map(|b| {
+            let mut k = b.keys.clone();
+            k.sort();
+            k
+        })
+        .collect();
+    (format!("{:?}", x.end), batches, x.loads.iter().map(|l| l.result.clone()).collect(), x.panic.clone(), b8, x.load8.as_ref().and_then(|l| l.result.clone()))
 }
 
 struct Judgement {
@@ -489,7 +576,10 @@ fn judge(cfg: &Cfg, x: &Exec) -> Judgement {
     match x.end {
         End::Done => {}
         End::Deadlock => {
-            let stuck: Vec<String> = x.loads.iter().enumerate().filter(|(_, l)| l.result.is_none()).map(|(i, l)| format!("request {i} {:?}", l.keys)).collect();
+            let mut stuck: Vec<String> = x.loads.iter().enumerate().filter(|(_, l)| l.result.is_none()).map(|(i, l)| format!("request {i} {:?}", l.keys)).collect();
+            if let Some(l) = x.load8.as_ref().filter(|l| l.result.is_none()) {
+                stuck.push(format!("the u8-keyed request {:?}", l.keys));
+            }
             p.push(("deadlock", format!("every spawned task ran until it parked, every timer fired and every batch completed, yet {} never completed (unfinished tasks {:?})", stuck.join(", "), x.unfinished)));
             return Judgement { problems: p, nontrivial: false };
         }
@@ -581,6 +671,39 @@ fn judge(cfg: &Cfg, x: &Exec) -> Judgement {
             }
         }
     }
+    // the request with keys of the second type: complete and exact values; its keys reach the u8 loader (nothing
+    // of that type was ever cached before), never twice in one batch, within the batch bound
+    if let Some(l) = &x.load8 {
+        match (l.start, l.end, l.result.as_ref()) {
+            (Some(s), Some(e), Some(res)) => {
+                let want: BTreeMap<u8, i32> = l.keys.iter().map(|k| (*k, 200 + *k as i32)).collect();
+                if res.as_ref().ok() != Some(&want) {
+                    p.push(("other-key-type-wrong-result", format!("the u8-keyed request {:?} completed with {:?}, expected Ok({:?})", l.keys, res, want)));
+                }
+                for k in &l.keys {
+                    if !x.batches8.iter().any(|b| b.keys.contains(k) && b.call > s && b.done.is_some_and(|d| d < e)) {
+                        p.push(("other-key-type-key-never-passed-to-loader", format!("key {k}u8 of the u8-keyed request was in no u8 batch called and completed during the load (u8 batches {:?})", x.batches8)));
+                    }
+                }
+            }
+            _ => p.push(("deadlock", "run ended Done but the u8-keyed request has no result".to_string())),
+        }
+        for (id, b) in x.batches8.iter().enumerate() {
+            let set: BTreeSet<u8> = b.keys.iter().cloned().collect();
+            if set.len() != b.keys.len() {
+                p.push(("duplicate-key-in-batch", format!("u8 batch #{id} was called with keys {:?}", b.keys)));
+            }
+            if b.keys.len() >= cfg.max_batch + l.keys.len() {
+                p.push(("oversized-batch", format!("u8 batch #{id} has {} keys", b.keys.len())));
+            }
+            if b.keys.iter().any(|k| !l.keys.contains(k)) {
+                p.push(("other-key-type-foreign-key", format!("u8 batch #{id} {:?} holds a key nobody requested with that type", b.keys)));
+            }
+        }
+        if !x.batches8.is_empty() && !x.batches.is_empty() {
+            nontrivial = true;
+        }
+    }
     Judgement { problems: p, nontrivial }
 }
 
@@ -591,6 +714,8 @@ fn describe(cfg: &Cfg, x: &Exec) -> serde_json::Value {
         "schedule": x.schedule,
         "pending_gates": x.pending_gates,
         "batches": x.batches.iter().enumerate().map(|(i, b)| json!({"id": i, "keys": b.keys, "called_at": b.call, "completed_at": b.done, "returned": format!("{:?}", b.ret)})).collect::<Vec<_>>(),
+        "u8_batches": x.batches8.iter().map(|b| json!({"keys": b.keys, "called_at": b.call, "completed_at": b.done})).collect::<Vec<_>>(),
+        "u8_load": x.load8.as_ref().map(|l| json!({"keys": l.keys, "started_at": l.start, "ended_at": l.end, "result": format!("{:?}", l.result)})),
         "loads": x.loads.iter().enumerate().map(|(i, l)| json!({"request": i, "keys": l.keys, "started_at": l.start, "ended_at": l.end, "result": format!("{:?}", l.result)})).collect::<Vec<_>>(),
     })
 }
@@ -606,7 +731,7 @@ pub fn run(cx: &Cx) {
          Part 'full' (Policy::Full): every order of runnable tasks and environment events (timer gates, batch completions, cancellation: exhaustive) with at most B preemptions, for every 2-request configuration \
          (quick: with cancellation only for {NoCache, LruCache(2)+feed} × {ok, first batch fails}) and for 3-request configurations at max_batch_size 3 (quick: 2; thorough: the 9 families of three single-key requests and {0},{1},{0,1}, × 3 caches, plus 2 at max_batch_size 2). \
          Part 'event-orders' (Policy::Eager, one arrival gate per request): every order of request arrivals, timer firings, batch completions and the cancellation, for every 2-request and 3-request configuration (quick: 3-request families with ≤ 4 keys in total). \
-         Non-trivial = distinct (configuration, outcome) in which a batch served two requests at once or a key was answered from the cache without a loader call.",
+         Second key type: every 2-request event-orders configuration (quick: without cancellation) and a 'full' sub-product once more with a concurrent load_many of two u8 keys on the same DataLoader (own Loader impl, own gate). Non-trivial = distinct (configuration, outcome) in which a batch served two requests at once or a key was answered from the cache without a loader call.",
     );
     cx.assume("spawned tasks and timers run: a run may only end when nothing is runnable and no environment event is outstanding");
     cx.assume("switch points are the natural Pending points of the futures (no scheduling hook inside src/dataloader/mod.rs); each poll of a task is atomic");
@@ -689,7 +814,8 @@ pub fn run(cx: &Cx) {
                         .key("cache", cfg.cache.name())
                         .key("loader", cfg.mode.name())
                         .key("cancel", if cfg.cancel.is_some() { "yes" } else { "no" })
-                        .key("max_batch_size", cfg.max_batch.to_string()),
+                        .key("max_batch_size", cfg.max_batch.to_string())
+                        .key("other_key_type", if cfg.other.is_some() { "yes" } else { "no" }),
                 );
             }
         };
